@@ -32,15 +32,14 @@ def plan(ctx):
         kw.setdefault('MaxLen', 8)
         runs.append((name, dict(Mode='sim', Alpha='seed', **kw),
                      dict(workers=workers, simulate=num, depth=kw['MaxLen'] + 4, seed=ctx.seed + 11)))
+    allo = frozenset({1, 2, 3, 4})
     if not ctx.thorough:
-        bfs('bfs2-o1', MaxLen=2, Orders=frozenset({1}), Alpha='small')
-        bfs('bfs2-o2', MaxLen=2, Orders=frozenset({2}), Alpha='tiny', workers=3)
+        bfs('bfs2-o1', MaxLen=2, Orders=frozenset({1}), Alpha='tiny')
         bfs('bfs1-o1-full', MaxLen=1, Orders=frozenset({1}), Alpha='full')
-        bfs('bfs1-o34', MaxLen=1, Orders=frozenset({3, 4}), Alpha='tiny')
+        bfs('bfs1-o234', MaxLen=1, Orders=frozenset({2, 3, 4}), Alpha='tiny')
         bfs('bfs2-op', MaxLen=2, OpDims=frozenset({1, 2}), Alpha='tiny')
-        for d in (1, 2, 3, 4):
-            sim('sim-o%d' % d, 30, Orders=frozenset({d}), NSeeds=2, NInit=2)
-        sim('sim-op', 20, OpDims=frozenset({1, 2, 3}), NSeeds=2, NInit=2, MaxLen=6)
+        sim('sim-t', 100, Orders=allo, NSeeds=2, NInit=1)
+        sim('sim-op', 25, OpDims=frozenset({1, 2, 3}), NSeeds=2, NInit=2, MaxLen=6)
     else:
         bfs('bfs2-o1', MaxLen=2, Orders=frozenset({1}), Alpha='small', NInit=2)
         bfs('bfs2-o2', MaxLen=2, Orders=frozenset({2}), Alpha='tiny', NInit=2, workers=4)
@@ -49,8 +48,8 @@ def plan(ctx):
         bfs('bfs2-o3', MaxLen=2, Orders=frozenset({3}), Alpha='tiny', workers=4)
         bfs('bfs1-o4', MaxLen=1, Orders=frozenset({4}), Alpha='tiny', NInit=2)
         bfs('bfs2-op', MaxLen=2, OpDims=frozenset({1, 2, 3}), Alpha='tiny', NInit=2, workers=3)
-        for d in (1, 2, 3, 4):
-            sim('sim-o%d' % d, 400, Orders=frozenset({d}), NSeeds=3, NInit=3, workers=3)
+        for k in range(4):
+            sim('sim-t%d' % k, 400, Orders=allo, NSeeds=3, NInit=2, workers=3, Salt=1 + (ctx.seed + 37 * k) % 200)
         sim('sim-op', 300, OpDims=frozenset({1, 2, 3}), NSeeds=3, NInit=3, MaxLen=6)
     return runs
 
@@ -82,25 +81,13 @@ def _replay_chunk(chunk):
     return out
 
 
-def replay_all(ctx, hists, found):
-    if not hists:
-        return 0
-    nproc = min(8, max(1, len(hists) // 200))
-    chunks = [hists[i:i + 250] for i in range(0, len(hists), 250)]
-    if nproc == 1:
-        res = [_replay_chunk(c) for c in chunks]
-    else:
-        with multiprocessing.get_context('fork').Pool(nproc) as pool:
-            res = pool.map(_replay_chunk, chunks)
-    steps = 0
-    for r in res:
-        for key, nontriv, n, sig, detail in r:
-            ctx.case(key, nontrivial=nontriv)
-            steps += n
-            if sig is not None:
-                f = found.setdefault(sig, [0, detail])
-                f[0] += 1
-    return steps
+def replay_all(pool, hists):
+    """replay in the shared worker pool; returns the per-history results"""
+    chunks = [hists[i:i + 200] for i in range(0, len(hists), 200)]
+    out = []
+    for r in pool.map(_replay_chunk, chunks):
+        out += r
+    return out
 
 
 # ------------------------------------------------------------------------------------------------
@@ -109,20 +96,13 @@ def replay_all(ctx, hists, found):
 def numeric(ctx, found):
     ncase = 400 if ctx.thorough else 50
     fams = ['tucker', 'aca', 'aca3d', 'greedy']
-
-    def gen(fam):
-        cfg = write_cfg(ctx.scratch / ('num_%s.cfg' % fam),
-                        dict(Family=fam, NCase=ncase if fam != 'greedy' else max(30, ncase // 4), Salt=1 + ctx.seed % 200),
-                        invariants=['WellFormed', 'EmitCase'])
-        return fam, ctx.tlc('TensorAlgNum', cfg, workers=1, timeout=1200)
-    with ThreadPoolExecutor(4) as ex:
-        gens = list(ex.map(gen, fams))
-    cases = []
-    for fam, res in gens:
-        cs = res.recs('NUM')
-        if not cs:
+    cfg = write_cfg(ctx.scratch / 'num_all.cfg', dict(Family='all', NCase=ncase, Salt=1 + ctx.seed % 200),
+                    invariants=['WellFormed', 'EmitCase'])
+    res = ctx.tlc('TensorAlgNum', cfg, workers=2, timeout=1800)
+    cases = res.recs('NUM')
+    for fam in fams:
+        if not any(c['fam'] == fam for c in cases):
             raise MachineryError('TensorAlgNum produced no case for family %s' % fam)
-        cases += cs
     inp = ctx.scratch / 'num_cases.jsonl'
     out = ctx.scratch / 'num_out.jsonl'
     inp.write_text(''.join(json.dumps(c) + '\n' for c in cases))
@@ -178,6 +158,7 @@ def run(ctx):
         'tolerance/orthonormality/exact-recovery/error-history predicates are floating-point predicates '
         'evaluated by the harness on spec-chosen inputs, not decided by TLC']
     runs = plan(ctx)
+    pool = multiprocessing.get_context('fork').Pool(8)      # created before any thread exists
 
     def one(item):
         name, consts, kw = item
@@ -186,19 +167,35 @@ def run(ctx):
         hs = res.recs('H')
         if not hs:
             raise MachineryError('TensorAlg %s emitted no history' % name)
-        return name, hs
+        return name, hs, replay_all(pool, hs)
+
+    def legacy():
+        # negative control: squeeze() as shipped (negative axes not normalised) breaks the homomorphism in the model
+        cfg = _cfg(ctx, 'legacy', Mode='bfs', MaxLen=1, Orders=frozenset({2}), Alpha='tiny', Legacy=True)
+        ctx.expect_violation('TensorAlg', cfg, workers=2)
 
     found = {}
     total_steps = 0
-    with ThreadPoolExecutor(4) as ex:
-        results = list(ex.map(one, runs))
-    # negative control: squeeze() as shipped (negative axes not normalised) breaks the homomorphism in the model
-    cfg = _cfg(ctx, 'legacy', Mode='bfs', MaxLen=1, Orders=frozenset({2}), Alpha='tiny', Legacy=True)
-    ctx.expect_violation('TensorAlg', cfg, workers=2)
+    try:
+        with ThreadPoolExecutor(8) as ex:
+            fnum = ex.submit(numeric, ctx, found)
+            fleg = ex.submit(legacy)
+            futs = [ex.submit(one, r) for r in runs]
+            results = [f.result() for f in futs]
+            fleg.result()
+            fnum.result()
+    finally:
+        pool.terminate()
 
     lens = {}
-    for name, hs in results:
-        n = replay_all(ctx, hs, found)
+    for name, hs, rs in results:
+        n = 0
+        for key, nontriv, k, sig, detail in rs:
+            ctx.case(key, nontrivial=nontriv)
+            n += k
+            if sig is not None:
+                f = found.setdefault(sig, [0, detail])
+                f[0] += 1
         total_steps += n
         for h in hs:
             L = sum(1 for s in h if s['a'] not in ('Init', 'Done'))
@@ -210,8 +207,6 @@ def run(ctx):
         print('[replay] %s: %d histories, %d steps' % (name, len(hs), n), flush=True)
     ctx.notes['history_lengths'] = {str(k): v for k, v in sorted(lens.items())}
     ctx.notes['steps_replayed'] = total_steps
-
-    numeric(ctx, found)
 
     for sig in sorted(found):
         cnt, detail = found[sig]
